@@ -5,12 +5,14 @@ pub mod prng;
 pub mod report;
 #[macro_use]
 pub mod scalar;
+pub mod bf;
 pub mod fp;
 pub mod q;
 pub mod sym;
 pub mod tag;
 pub mod gen;
 
+pub use bf::Bf;
 pub use fp::Fp;
 pub use prng::{Rng, H64};
 pub use q::Q;
